@@ -934,6 +934,29 @@ func c01HeldResults(res *Result) {
 			fail("a template object registered with a second engine", before, after, "the first engine renders the template differently after RegisterTemplate(name, sameObject) on another engine")
 		}
 	}
+	// (2b) the same source text parsed by two engines with ParseTemplate: each gets a template of its own
+	const src = "{{ site }}: {{ 'hello'|upper|deco }} {% include 'footer' %}"
+	for round := 0; round < 2; round++ {
+		e1, e2 := mk("one", "!"), mk("two", "?")
+		t1, err1 := e1.ParseTemplate(src)
+		t2, err2 := e2.ParseTemplate(src)
+		if err1 == nil && err2 == nil {
+			res.Evaluations += 2
+			o1, _ := t1.Render(map[string]interface{}{})
+			o2, _ := t2.Render(map[string]interface{}{})
+			if o1 != "one: HELLO! [one footer]" || o2 != "two: HELLO? [two footer]" {
+				fail("one source parsed by two engines", "one: HELLO! [one footer] / two: HELLO? [two footer]", o1+" / "+o2,
+					"ParseTemplate of the same text on a second engine gives a template that renders with the first engine's globals, filters or templates")
+			}
+			e3 := twig.New() // an engine that lacks the filter and the footer: the same text must fail there
+			if t3, err := e3.ParseTemplate(src); err == nil {
+				res.Evaluations++
+				if o3, err3 := t3.Render(map[string]interface{}{}); err3 == nil {
+					fail("one source parsed by an engine that lacks what it uses", "an error (no filter deco, no template footer)", o3, "")
+				}
+			}
+		}
+	}
 	// (3) a second name in another directory
 	ld := twig.NewArrayLoader(map[string]string{"mail/letter.twig": "Dear {{ v }} {% include './footer.twig' %}", "mail/footer.twig": "-- the mail team", "web/footer.twig": "-- the web site"})
 	e3 := twig.New()
